@@ -269,6 +269,8 @@ pub struct Check {
     extra: BTreeMap<String, Value>,
     only: Option<String>,
     infra_errors: Vec<String>,
+    regressions: Vec<(String, ReplayFile)>,
+    regressions_run: u64,
 }
 
 thread_local! {
@@ -352,6 +354,18 @@ impl Check {
             .and_then(|v| serde_json::from_value(v).ok())
             .unwrap_or_default();
         let open_keys = known.iter().filter(|k| k.property == id && k.status == "open").map(|k| k.key.clone()).collect::<Vec<_>>();
+        // committed regression cases (shrunk witnesses of fixed findings and of seeded changes)
+        let mut regressions = vec![];
+        if let Ok(rd) = std::fs::read_dir(Path::new(VERIF_ROOT).join("replays").join(id)) {
+            let mut paths: Vec<_> = rd.filter_map(|e| e.ok()).map(|e| e.path()).filter(|p| p.extension().map(|x| x == "json").unwrap_or(false)).collect();
+            paths.sort();
+            for p in paths {
+                match std::fs::read(&p).map_err(|e| e.to_string()).and_then(|b| serde_json::from_slice::<ReplayFile>(&b).map_err(|e| e.to_string())) {
+                    Ok(r) => regressions.push((p.to_string_lossy().into_owned(), r)),
+                    Err(e) => infra_errors.push(format!("unreadable regression file {p:?}: {e}")),
+                }
+            }
+        }
         Check {
             id: id.to_owned(),
             tier,
@@ -368,6 +382,8 @@ impl Check {
             extra: BTreeMap::new(),
             only,
             infra_errors,
+            regressions,
+            regressions_run: 0,
         }
     }
 
@@ -432,7 +448,10 @@ impl Check {
         F: Fn(&T, &mut CaseCtx) -> Result<(), String>,
     {
         let (input, path) = match &mut self.mode {
-            Mode::Explore => return false,
+            Mode::Explore => {
+                self.run_regressions::<T, F>(name, f);
+                return false;
+            }
             Mode::Replay { check, input, path, hit } => {
                 if check != name {
                     return true;
@@ -467,6 +486,30 @@ impl Check {
             }
         }
         true
+    }
+
+    /// Replay tier: committed witnesses under /verif/replays/<id>/*.json for this sub-check are
+    /// re-evaluated before exploring. A fixed finding that returns is reported again.
+    fn run_regressions<T, F>(&mut self, name: &str, f: &F)
+    where
+        T: Serialize + DeserializeOwned,
+        F: Fn(&T, &mut CaseCtx) -> Result<(), String>,
+    {
+        let mine: Vec<(String, Value)> = self.regressions.iter().filter(|(_, r)| r.check == name && r.property == self.id).map(|(p, r)| (p.clone(), r.input.clone())).collect();
+        for (path, input) in mine {
+            match serde_json::from_value::<T>(input) {
+                Err(e) => self.infra_errors.push(format!("regression {path} does not deserialise: {e}")),
+                Ok(v) => {
+                    let mut cx = self.new_ctx();
+                    self.regressions_run += 1;
+                    if let Err(m) = no_panic(|| f(&v, &mut cx)).and_then(|r| r) {
+                        println!("VIOLATION property={} replay={}", self.id, path);
+                        println!("  check={name} (committed regression case) message={}", m.chars().take(600).collect::<String>());
+                        self.violations.push(path);
+                    }
+                }
+            }
+        }
     }
 
     /// Random structured generation (G1). `mk` builds the strategy (once per shard); `f` is the
@@ -725,6 +768,7 @@ impl Check {
             coverage.insert("classes".into(), json!(total.classes));
             coverage.insert("subchecks".into(), Value::Array(subs_json));
             coverage.insert("known_findings_hit".into(), Value::Array(known_lines));
+            coverage.insert("regression_replays_run".into(), json!(self.regressions_run));
             coverage.insert("generator_health_failures".into(), json!(self.health));
             coverage.insert("infrastructure_errors".into(), json!(self.infra_errors));
             for (k, v) in &self.extra {
